@@ -904,3 +904,223 @@ func nullOnlyForNegative(c *Ctx, rid string) {
 	c.count("wire-length-tests", n)
 	c.floor("wire-length-tests", 2)
 }
+
+// ruleReverseByBody (mechanical sweep: either sign of `(l - i - 1) - (step - 1) + j` flipped in
+// Array.ReverseBy survives the suite, which never asks for ZREVRANGE ... WITHSCORES): the element
+// taken for output position i+j is msgs[l - i - step + j] — the groups in reverse order, each group
+// in its own order. Decided on the linear form of the index expression, not on its spelling.
+func ruleReverseByBody(c *Ctx, rid string) {
+	c.rule(rid, "Array.ReverseBy: the one index expression reading the source elements is, as a linear form over (length, outer counter stepping by step, inner counter stepping by 1, step), exactly length - outer - step + inner with no constant term")
+	fn := c.P.Method(pkgProto, "Array", "ReverseBy")
+	if !c.anchor(rid, fn, "proto.(*Array).ReverseBy") {
+		return
+	}
+	c.analysed(fn)
+	var idxs []*ssa.IndexAddr
+	allInstrs(fn, func(ins ssa.Instruction) {
+		if ia, ok := ins.(*ssa.IndexAddr); ok && !isVarargsArray(ia.X) {
+			if _, isC := ia.Index.(*ssa.Const); !isC {
+				idxs = append(idxs, ia)
+			}
+		}
+	})
+	if len(idxs) != 1 {
+		c.undecided(rid, "Array.ReverseBy/index", c.P.pos(fn.Pos()), fmt.Sprintf("%d computed index expressions found, one expected (the rule reads the nested-loop form)", len(idxs)))
+		return
+	}
+	coef := map[ssa.Value]int64{}
+	var k int64
+	var walk func(v ssa.Value, sign int64, d int)
+	walk = func(v ssa.Value, sign int64, d int) {
+		if cv, ok := constInt(v); ok {
+			k += sign * cv
+			return
+		}
+		if bo, ok := v.(*ssa.BinOp); ok && d < 12 && (bo.Op == token.ADD || bo.Op == token.SUB) {
+			walk(bo.X, sign, d+1)
+			if bo.Op == token.ADD {
+				walk(bo.Y, sign, d+1)
+			} else {
+				walk(bo.Y, -sign, d+1)
+			}
+			return
+		}
+		coef[v] += sign
+	}
+	walk(idxs[0].Index, 1, 0)
+	problems := []string{}
+	if k != 0 {
+		problems = append(problems, fmt.Sprintf("constant term %d", k))
+	}
+	seenLen, seenStep, seenOuter, seenInner := false, false, false, false
+	stepsBy := func(ph *ssa.Phi) (byParam bool, byOne bool) {
+		for _, e := range ph.Edges {
+			if bo, ok := e.(*ssa.BinOp); ok && bo.Op == token.ADD && bo.X == ssa.Value(ph) {
+				if _, isP := bo.Y.(*ssa.Parameter); isP {
+					byParam = true
+				}
+				if cv, isC := constInt(bo.Y); isC && cv == 1 {
+					byOne = true
+				}
+			}
+		}
+		return
+	}
+	for v, cf := range coef {
+		if cf == 0 {
+			continue
+		}
+		switch x := v.(type) {
+		case *ssa.Parameter:
+			seenStep = true
+			if cf != -1 {
+				problems = append(problems, fmt.Sprintf("step enters with coefficient %+d, not -1", cf))
+			}
+		case *ssa.Call:
+			if b, isB := x.Common().Value.(*ssa.Builtin); isB && b.Name() == "len" {
+				seenLen = true
+				if cf != 1 {
+					problems = append(problems, fmt.Sprintf("the length enters with coefficient %+d, not +1", cf))
+				}
+			} else {
+				problems = append(problems, "an unexpected term "+x.String())
+			}
+		case *ssa.Phi:
+			byParam, byOne := stepsBy(x)
+			switch {
+			case byParam:
+				seenOuter = true
+				if cf != -1 {
+					problems = append(problems, fmt.Sprintf("the group counter enters with coefficient %+d, not -1", cf))
+				}
+			case byOne:
+				seenInner = true
+				if cf != 1 {
+					problems = append(problems, fmt.Sprintf("the position inside the group enters with coefficient %+d, not +1", cf))
+				}
+			default:
+				problems = append(problems, "a loop variable that steps neither by step nor by 1")
+			}
+		default:
+			problems = append(problems, "an unexpected term "+v.String())
+		}
+	}
+	if !(seenLen && seenStep && seenOuter && seenInner) {
+		problems = append(problems, "the index does not depend on all of length, step, group counter and position in the group")
+	}
+	c.check(len(problems) == 0, rid, "Array.ReverseBy/index", c.P.instrPos(idxs[0]), "msgs[len - i - step + j]", "the element read for output position i+j is not msgs[len - i - step + j] ("+strings.Join(problems, "; ")+"): with step 2 the member/score pairs of ZREVRANGE ... WITHSCORES come out in the wrong order or the index leaves the array")
+}
+
+// rulePingEchoShapes (mechanical sweep: `len(arg) == 0` -> `!=` in Server.Ping survives the suite):
+// PING answers +PONG exactly when it has no argument and the argument as a bulk string otherwise;
+// ECHO answers its argument as a bulk string.
+func rulePingEchoShapes(c *Ctx, rid string) {
+	c.rule(rid, "Server.Ping returns NewStringMessage(\"PONG\") only where its argument is known to be empty and NewBulkMessage(argument) only where it is known not to be; Server.Echo returns NewBulkMessage(argument) on every path")
+	emptiness := func(b *ssa.BasicBlock, arg *ssa.Parameter) (empty, nonEmpty bool) {
+		isLenArg := func(v ssa.Value) bool {
+			call, ok := strip(v).(*ssa.Call)
+			if !ok {
+				return false
+			}
+			bi, isB := call.Common().Value.(*ssa.Builtin)
+			return isB && bi.Name() == "len" && len(call.Common().Args) == 1 && strip(call.Common().Args[0]) == ssa.Value(arg)
+		}
+		isK := func(v ssa.Value, k int64) bool { cv, ok := constInt(v); return ok && cv == k }
+		isEmptyStr := func(v ssa.Value) bool { s, ok := constString(v); return ok && s == "" }
+		for _, at := range factsAt(b) {
+			switch at.Kind {
+			case "eq":
+				if (isLenArg(at.X) && isK(at.Y, 0)) || (isLenArg(at.Y) && isK(at.X, 0)) || (strip(at.X) == ssa.Value(arg) && isEmptyStr(at.Y)) || (strip(at.Y) == ssa.Value(arg) && isEmptyStr(at.X)) {
+					if at.Pos {
+						empty = true
+					} else {
+						nonEmpty = true
+					}
+				}
+			case "lt":
+				if isK(at.X, 0) && isLenArg(at.Y) { // 0 < len
+					if at.Pos {
+						nonEmpty = true
+					} else {
+						empty = true
+					}
+				}
+				if isLenArg(at.X) && isK(at.Y, 1) { // len < 1
+					if at.Pos {
+						empty = true
+					} else {
+						nonEmpty = true
+					}
+				}
+			case "le":
+				if isLenArg(at.X) && isK(at.Y, 0) { // len <= 0
+					if at.Pos {
+						empty = true
+					} else {
+						nonEmpty = true
+					}
+				}
+				if isK(at.X, 1) && isLenArg(at.Y) { // 1 <= len
+					if at.Pos {
+						nonEmpty = true
+					} else {
+						empty = true
+					}
+				}
+			}
+		}
+		return
+	}
+	for _, name := range []string{"Ping", "Echo"} {
+		fn := c.P.Method(pkgRedis, "Server", name)
+		if !c.anchor(rid, fn, "redis.(*Server)."+name) {
+			continue
+		}
+		c.analysed(fn)
+		var arg *ssa.Parameter
+		for _, p := range fn.Params {
+			if b, ok := p.Type().Underlying().(*types.Basic); ok && b.Kind() == types.String {
+				arg = p
+			}
+		}
+		if arg == nil {
+			c.undecided(rid, "Server."+name+"/argument", c.P.pos(fn.Pos()), "no string parameter found")
+			continue
+		}
+		problems := []string{}
+		for _, r := range returnsOf(fn) {
+			if len(r.Results) != 2 {
+				continue
+			}
+			if !isNilConst(retOperand(r, 1)) {
+				continue
+			}
+			call, ok := strip(retOperand(r, 0)).(*ssa.Call)
+			if !ok {
+				problems = append(problems, "a reply that is not built by a message constructor at "+c.P.instrPos(r))
+				continue
+			}
+			cn := calleeName(call.Common())
+			empty, nonEmpty := emptiness(r.Block(), arg)
+			switch {
+			case strings.HasSuffix(cn, ".NewStringMessage") && name == "Ping":
+				if s, isS := constString(call.Common().Args[0]); !isS || s != "PONG" {
+					problems = append(problems, "the status reply is not the constant PONG")
+				}
+				if !empty {
+					problems = append(problems, "+PONG is answered where the argument is not known to be empty")
+				}
+			case strings.HasSuffix(cn, ".NewBulkMessage"):
+				if strip(call.Common().Args[0]) != ssa.Value(arg) {
+					problems = append(problems, "the bulk reply is not the argument itself")
+				}
+				if name == "Ping" && !nonEmpty {
+					problems = append(problems, "the argument is echoed where it is not known to be non-empty (PING without argument must answer +PONG)")
+				}
+			default:
+				problems = append(problems, "reply built by "+cn)
+			}
+		}
+		c.check(len(problems) == 0, rid, "Server."+name+"/reply-shape", c.P.pos(fn.Pos()), "reply shape follows the presence of the argument", strings.Join(problems, "; "))
+	}
+}
